@@ -80,4 +80,5 @@ def main():
               {'exhaustive': True})
 
 if __name__ == '__main__':
-    main()
+    from lib.report import guarded
+    guarded(main)
